@@ -249,7 +249,7 @@ func c13WireGen(g *hx.Gen) {
 	}
 	for i := 0; i < n/2; i++ {
 		l := hx.Pick(r, []int{mw, 2 * mw, 3 * mw}) + r.Intn(17) - 8
-		emit(1+r.Intn(9), nil, fmt.Sprintf("%d:%d", l, r.Intn(26)), "r"+strconv.Itoa(1+r.Intn(70000)))
+		emit(1+r.Intn(9), nil, fmt.Sprintf("%d:%d", l, r.Intn(26)), "r"+strconv.Itoa(200+r.Intn(70000)))
 	}
 	// 6. pairs that do not fit a record (value truncated, name too long) next to ones that do
 	for _, big := range []string{fmt.Sprintf("10:%d:3", mw), fmt.Sprintf("%d:5:3", mw-7), fmt.Sprintf("%d:0:3", mw+100), fmt.Sprintf("300:%d:1", 2*mw)} {
